@@ -5,6 +5,7 @@ import json
 import multiprocessing as mp
 import os
 import random
+import re
 import resource
 import shutil
 import signal
@@ -220,6 +221,17 @@ DEFINED = [
     ("ffi", ["FFI:", "Could not open FFI Library", "Could not find symbol"]),
 ]
 
+# wording-tolerant fall-back (see classify_failure)
+INTERNAL_CUES = ["is invalid", "not in scope", "load before store", "not a function", "does not exist", "can only",
+                 "non-boolean", "heapprimitive", "non-vector", "mismatched types", "cannot index with", "not found",
+                 "unreachable", "already", "cannot negate", "cannot compare", "not callable", "has not been mapped",
+                 "is not a callback", "requires", "expected", "impossible", "stack mismatch"]
+DEFINED_BROAD = [("assert", re.compile(r"\bassert")), ("nil", re.compile(r"\bnil\b")),
+                 ("index", re.compile(r"out of bounds|out of range|key error|does not have key|no such key|missing key")),
+                 ("zero_div", re.compile(r"by 0\b|by zero|division by|divide by")),
+                 ("overflow", re.compile(r"overflow|underflow|cannot be made into|could not fit|too large|invalid radix|invalid power|conversion")),
+                 ("ffi", re.compile(r"\bffi\b|foreign function|could not open|could not find symbol"))]
+
 PANIC_DEFINED = [
     ("overflow", ["attempt to add with overflow", "attempt to subtract with overflow",
                   "attempt to multiply with overflow", "attempt to negate with overflow",
@@ -252,6 +264,16 @@ def classify_failure(res):
         for kind, pats in DEFINED:
             if any(p in body for p in pats):
                 return ("defined", kind)
+        # Not one of the pinned tree's own messages.  A re-worded message of a defined failure must not become an
+        # alarm: when the cause carries none of the cues of an internal error and names what failed in the words of
+        # the statement (assertion, nil, bounds / key, division by zero, overflow / conversion), it is that failure.
+        cause = body.split("Caused by:", 1)[1] if "Caused by:" in body else "\n".join(
+            l for l in body.splitlines() if not l.strip().startswith((">>", "^")))
+        low = re.sub(r"`(?!nil`)[^`\n]*`", "`_`", cause).lower()
+        if not any(c in low for c in INTERNAL_CUES):
+            for kind, rx in DEFINED_BROAD:
+                if rx.search(low):
+                    return ("defined", kind)
         return ("internal", cause_of(body))
     if MISMATCH in text:
         return ("internal", "STACK MISMATCH")
